@@ -276,3 +276,26 @@ pub fn parse_displayed_number(s: &str) -> Option<f64> {
     }
     t.parse::<f64>().ok()
 }
+
+/// Split a displayed quantity such as `1_234.5 km`, `60″`, `-inf m/s`, `1.2e-7` into the
+/// number and the unit text: the longest leading part that reads as a number.
+pub fn split_displayed_quantity(text: &str) -> Option<(f64, String)> {
+    let t = text.trim();
+    let mut ends: Vec<usize> = t.char_indices().map(|(i, _)| i).skip(1).collect();
+    ends.push(t.len());
+    for end in ends.into_iter().rev() {
+        let head = t[..end].trim();
+        if head.is_empty() {
+            continue;
+        }
+        if let Some(n) = parse_displayed_number(head) {
+            // do not split inside a number ("12" of "123")
+            let rest = &t[end..];
+            if rest.chars().next().map(|c| c.is_ascii_digit() || c == '.').unwrap_or(false) {
+                continue;
+            }
+            return Some((n, rest.trim().to_string()));
+        }
+    }
+    None
+}
